@@ -99,7 +99,21 @@ def graphHandler : Handler (List (String × Bool)) where
       | _, _, _, _ => (known, ["obs bad-op"])
     | _ => (known, ["obs bad-op"])
 
+/-- `c06-exp`: `op exp sig=… declared=-|0|1 batching=0|1 opts=…` → `obs cap <b>` -/
+def expHandler : Handler Unit where
+  init := ()
+  onOp := fun s toks =>
+    match toks with
+    | "exp" :: rest =>
+      match kv rest "declared", kvNat rest "batching" with
+      | some d, some b =>
+        let decl : Option Bool := if d = "1" then some true else if d = "0" then some false else none
+        (s, [s!"obs cap {b01 (exporterCap decl (b = 1))}"])
+      | _, _ => (s, ["obs bad-op"])
+    | _ => (s, ["obs bad-op"])
+
 end OtelVerif.Drivers.C06
 
 def main : IO UInt32 :=
-  runMulti [("c06-fan", run OtelVerif.Drivers.C06.fanHandler), ("c06-graph", run OtelVerif.Drivers.C06.graphHandler)]
+  runMulti [("c06-fan", run OtelVerif.Drivers.C06.fanHandler), ("c06-graph", run OtelVerif.Drivers.C06.graphHandler),
+    ("c06-exp", run OtelVerif.Drivers.C06.expHandler)]
